@@ -25,8 +25,11 @@ def run(ctx):
 
     # ---- A
     r = ctx.tlc(sdir, "Registry.tla", "MC_Registry_thorough.cfg" if thorough else "MC_Registry.cfg",
-                timeout=3000 if thorough else 600)
+                timeout=1800 if thorough else 600)
     ctx.require_design_ok(r, "Registry ident-keyed")
+    if thorough:
+        r3 = ctx.tlc(sdir, "Registry.tla", "MC_Registry_thorough3.cfg", timeout=1800)   # 4 keys, up to 3 tracked at once
+        ctx.require_design_ok(r3, "Registry ident-keyed, 3 tracked")
     ctx.log("A: exhaustive %d distinct states, %d generated, depth %d" % (r["distinct"], r["generated"], r["depth"]))
     r2 = ctx.tlc(sdir, "Registry.tla", "MC_Registry_secret.cfg", timeout=300, count=False)
     if r2["inv"] != "OneRecordPerRegistration":
